@@ -91,6 +91,11 @@ func (node *FilterNode) isMethodQualified(
 
 	flowFilter := flow.GetFilter()
 
+	if flow.IsUserFlow() && len(flowFilter.GetAllowedMethods()) == 0 {
+		log.Trace().Msgf("Method not specified on Flow: %s", flow.GetName())
+		return true
+	}
+
 	for _, method := range flowFilter.GetSupportedMethods() {
 		if method == APIStream.GetMethod() {
 			log.Trace().Msgf("Method qualified for Flow: %s", flow.GetName())
